@@ -18,6 +18,10 @@ class It { fn next(self) { return StopIter.new(); } }
 class MyErr { }
 var selfvec = []; selfvec.push(selfvec);
 var selfmap = {}; selfmap.insert(1, selfmap);
+var selfvec2 = []; selfvec2.push(selfvec2); selfvec2.push([selfvec2, selfvec2]);
+var selfmap2 = {}; selfmap2.insert(1, selfmap2); selfmap2.insert(2, selfmap2); selfmap2.insert(3, [selfmap2]);
+var cycv = []; var cycm = {1: cycv, 2: cycv}; cycv.push(cycm); cycv.push(cycm); cycv.push((cycm, cycv));
+var cycinst = U.new(); cycinst.me = [cycinst, cycinst]; cycinst.map = {1: cycinst};
 var fnew = Fiber.new(|| 1);
 var fone = Fiber.new(|a| a);
 var fsusp = Fiber.new(|| { Fiber.yield(1); Fiber.yield(2); });
@@ -64,6 +68,36 @@ const NAMES: &[&str] = &[
     "is_hexdigit", "count_chars", "char_byte_index", "from", "from_ascii", "from_utf8", "from_code_points", "val", "v",
 ];
 
+/// values that reach themselves along more than one path; used only where a value is turned into
+/// text or inspected, never as operands of `==` (recorded finding P1: comparing two distinct cyclic
+/// containers recurses without bound)
+const CYCLIC: &[&str] = &["selfvec2", "selfmap2", "cycv", "cycm", "cycinst", "cycinst.me", "cycinst.map", "[cycv, cycv]", "(selfmap2, selfmap2)", "{1: selfvec2, 2: selfvec2}"];
+
+const STRS: &[&str] = &["\"\"", "\"a\"", "\"é\"", "\"€😀\"", "\"hello world\"", "\"12\"", "big", "\"héllo!\"", "\"lo\"", "\"o w\"", "\"ab\"", "\" \"", "\"héllo\"", "\"-0\"", "\"1e5\"", "\"0x10\""];
+const INTS: &[&str] = &["0", "-0", "1", "-1", "2", "3", "5", "-2", "11", "12", "255", "256", "-12"];
+const WILD: &[&str] = &["0.5", "(0 / 0)", "(1 / 0)", "9007199254740992", "9223372036854775808", "-9223372036854775808", "nil", "true"];
+const VECS: &[&str] = &["[]", "[1]", "[104, 105]", "[233]", "[195, 169]", "[72, 300, nil]", "[195]", "[55296]", "[1114112]", "[-1]", "[0.5]", "[1, [2]]", "selfvec", "sharedvec", "[\"a\", \"b\"]"];
+const FUNS: &[&str] = &["lam", "lam0", "lam2", "print", "bm", "U.s", "String.from", "type"];
+const TUPS: &[&str] = &["()", "(1,)", "((1,), 2)", "tupvec", "tupnest"];
+const MAPS: &[&str] = &["{}", "{1: 2}", "{\"a\": 1, (1, 2): 3}", "selfmap"];
+const RANGES: &[&str] = &["(0..0)", "(3..0)", "(0..3)", "(-2..2)", "(1..2)"];
+const FIBS: &[&str] = &["fnew", "fone", "fsusp", "fdone", "Fiber.new(|| 1)", "Fiber.new(|a| a)"];
+const ITERS: &[&str] = &["itfresh", "itdone", "mapit", "\"aé\".iter()", "(1, 2).iter()", "(0..2).iter()", "[1, 2, 3].iter()", "(3..0).iter()"];
+
+/// (receiver pool, method, argument kinds): s string, i small integer, v vec, f function, a anything
+const TYPED: &[(&[&str], &str, &str)] = &[
+    (STRS, "len", ""), (STRS, "count_chars", ""), (STRS, "char_byte_index", "i"), (STRS, "find", "si"), (STRS, "find", "s"),
+    (STRS, "replace", "ss"), (STRS, "split", "s"), (STRS, "starts_with", "s"), (STRS, "ends_with", "s"), (STRS, "to_num", ""),
+    (STRS, "to_bytes", ""), (STRS, "to_code_points", ""), (STRS, "is_alpha", ""), (STRS, "is_digit", ""), (STRS, "is_hexdigit", ""),
+    (STRS, "iter", ""), (&["String"], "from", "a"), (&["String"], "from_ascii", "v"), (&["String"], "from_utf8", "v"),
+    (&["String"], "from_code_points", "v"), (VECS, "len", ""), (VECS, "push", "a"), (VECS, "pop", ""), (VECS, "iter", ""),
+    (TUPS, "len", ""), (TUPS, "iter", ""), (MAPS, "get", "a"), (MAPS, "insert", "aa"), (MAPS, "remove", "a"), (MAPS, "has_key", "a"),
+    (MAPS, "clear", ""), (MAPS, "keys", ""), (MAPS, "values", ""), (MAPS, "items", ""), (MAPS, "len", ""), (RANGES, "iter", ""),
+    (FIBS, "call", ""), (FIBS, "call", "a"), (FIBS, "has_finished", ""), (&["Fiber"], "new", "f"), (&["Fiber"], "yield", "a"),
+    (ITERS, "next", ""), (ITERS, "map", "f"), (ITERS, "filter", "f"), (ITERS, "reduce", "fa"), (ITERS, "collect", ""),
+    (&["inst", "U.new()"], "two", "aa"), (&["inst"], "derives", "a"), (&["modv"], "get", ""),
+];
+
 const BINOPS: &[&str] = &["+", "-", "*", "/", "%", "&", "|", "^", "<<", ">>", "==", "!=", "<", "<=", ">", ">=", "&&", "||", ".."];
 
 fn adversarial(bytes: &[u8], triggers: bool) -> (String, usize) {
@@ -94,7 +128,73 @@ fn adversarial_with(bytes: &[u8], triggers: bool, stable: bool) -> (String, usiz
             let k = rd.below(4);
             (0..k).map(|_| pool[rd.below(pool.len())].to_string()).collect::<Vec<_>>().join(", ")
         };
-        let op = match rd.below(16) {
+        let typed_arg = |rd: &mut Rd, k: u8| -> String {
+            // mostly a value of the kind the method expects, so that the call gets past the native's
+            // argument validation and into its logic; sometimes anything at all
+            if rd.chance(1, 6) {
+                return pool[rd.below(pool.len())].to_string();
+            }
+            match k {
+                b's' => rd.pick_str(STRS).to_string(),
+                b'i' => {
+                    if rd.chance(1, 5) {
+                        rd.pick_str(WILD).to_string()
+                    } else {
+                        rd.pick_str(INTS).to_string()
+                    }
+                }
+                b'v' => rd.pick_str(VECS).to_string(),
+                b'f' => rd.pick_str(FUNS).to_string(),
+                _ => match rd.below(6) {
+                    0 => rd.pick_str(STRS).to_string(),
+                    1 => rd.pick_str(INTS).to_string(),
+                    2 => rd.pick_str(VECS).to_string(),
+                    3 => rd.pick_str(TUPS).to_string(),
+                    _ => pool[rd.below(pool.len())].to_string(),
+                },
+            }
+        };
+        let op = match rd.below(21) {
+            16 | 17 | 18 => {
+                // a call that respects the method's signature: receiver of the right class, arguments
+                // of the expected kinds (one in six replaced by an arbitrary value, one call in eight
+                // with an argument too few or too many)
+                let (recv, name, kinds) = TYPED[rd.below(TYPED.len())];
+                let r = rd.pick_str(recv);
+                let mut a: Vec<String> = kinds.bytes().map(|k| typed_arg(&mut rd, k)).collect();
+                if rd.chance(1, 8) {
+                    if rd.flag() && !a.is_empty() {
+                        a.pop();
+                    } else {
+                        a.push(pool[rd.below(pool.len())].to_string());
+                    }
+                }
+                if rd.chance(1, 4) {
+                    // through a chain: the result of one call is the receiver of the next
+                    let (_, name2, kinds2) = TYPED[rd.below(TYPED.len())];
+                    let a2: Vec<String> = kinds2.bytes().map(|k| typed_arg(&mut rd, k)).collect();
+                    format!("print({}.{}({}).{}({}));", r, name, a.join(", "), name2, a2.join(", "))
+                } else {
+                    format!("print({}.{}({}));", r, name, a.join(", "))
+                }
+            }
+            19 | 20 if !stable => {
+                // values that contain themselves along several paths, turned into text or inspected
+                let x = rd.pick_str(CYCLIC);
+                match rd.below(10) {
+                    0 => format!("print({});", x),
+                    1 => format!("print(String.from({}).len() > 0);", x),
+                    2 => format!("print(\"<${{{}}}>\".len() > 0);", x),
+                    3 => format!("print({{}}.insert({}, 1));", x),
+                    4 => format!("print({{{}: 1}});", x),
+                    5 => format!("for cx{} in {} {{ print(cx{}); }}", i, x, i),
+                    6 => format!("throw {};", x),
+                    7 => format!("print([{}, {}].len()); print(({}, 1));", x, x, x),
+                    8 => format!("print({}.len()); print(type({}));", x, x),
+                    _ => format!("print({} + 1);", x),
+                }
+            }
+            19 | 20 => format!("print({} {} {});", v(&mut rd), rd.pick_str(BINOPS), v(&mut rd)),
             0 | 1 => format!("print({} {} {});", v(&mut rd), rd.pick_str(BINOPS), v(&mut rd)),
             2 => format!("print({}{});", rd.pick_str(&["-", "!", "~"]), v(&mut rd)),
             3 => format!("print({}[{}]);", v(&mut rd), v(&mut rd)),
@@ -244,7 +344,7 @@ impl Property for C02 {
     }
 
     fn rule(&self) -> String {
-        format!("cases: (adversarial) programs of 8-47 operations, each one of: binary/unary operator, index, slice, method call with 0-3 arguments, property get/set, call, for-in, throw, interpolation, map-key use, element assignment, or `#[derive(x)]` of a value, applied to operands from an adversarial pool of {} values (nil, booleans, 0, -0, NaN, infinities, 2^53, +-2^63, overflowed 1e308*10, empty/ASCII/multi-byte/long strings, empty and nested containers, a vec and a map containing themselves, empty/reversed/huge ranges, lambdas of arity 0-2, natives, bound methods and bound natives, user and built-in classes and metaclasses, instances, fibers that are new/suspended/finished, fresh and exhausted iterators, a module, StopIter and error instances) and {} member names; every operation is wrapped in try/catch printing the class and the program ends with a sentinel; (depth) recursion to 55-74 frames through functions, methods, fibers and try/finally with up to 200 live temporaries per frame; (illtyped) generated programs with half of all operands ill-typed; (*_triggers) the same with the shapes of recorded findings enabled. Run in the checked build with collection at every allocation and swept objects quarantined. Oracle: the run returns Ok or an Error with >=1 message, no panic, no worker death, no dereference of a swept object, the sentinel is printed (every error was catchable and execution continued), arithmetic still works afterwards. Non-trivial: >=10 operations of which >=3 failed with a reported error and >=3 succeeded; distinct by program text.", POOL.len(), NAMES.len())
+        format!("cases: (adversarial) programs of 8-47 operations, each one of: binary/unary operator, index, slice, method call with 0-3 arguments drawn blindly, method call that respects the method's signature (receiver of the right class and arguments of the expected kinds from typed sub-pools of strings, small and extreme numbers, vectors of byte and code-point values, functions, tuples, maps, ranges, fibers and iterators, sometimes one argument off or an arbitrary value, sometimes chained), a value that contains itself along several paths printed, converted to text, interpolated, used as a map key, iterated, thrown or nested, property get/set, call, for-in, throw, interpolation, map-key use, element assignment, or `#[derive(x)]` of a value, applied to operands from an adversarial pool of {} values (nil, booleans, 0, -0, NaN, infinities, 2^53, +-2^63, overflowed 1e308*10, empty/ASCII/multi-byte/long strings, empty and nested containers, a vec and a map containing themselves, empty/reversed/huge ranges, lambdas of arity 0-2, natives, bound methods and bound natives, user and built-in classes and metaclasses, instances, fibers that are new/suspended/finished, fresh and exhausted iterators, a module, StopIter and error instances) and {} member names; every operation is wrapped in try/catch printing the class and the program ends with a sentinel; (depth) recursion to 55-74 frames through functions, methods, fibers and try/finally with up to 200 live temporaries per frame; (illtyped) generated programs with half of all operands ill-typed; (*_triggers) the same with the shapes of recorded findings enabled. Run in the checked build with collection at every allocation and swept objects quarantined. Oracle: the run returns Ok or an Error with >=1 message, no panic, no worker death, no dereference of a swept object, the sentinel is printed (every error was catchable and execution continued), arithmetic still works afterwards. Non-trivial: >=10 operations of which >=3 failed with a reported error and >=3 succeeded; distinct by program text.", POOL.len(), NAMES.len())
     }
 
     fn assumptions(&self) -> Vec<String> {
